@@ -25,7 +25,7 @@ META = {
     "design_ref": "DESIGN.md §6 C09, Appendix B",
 }
 
-SIZES = {"quick": (150, 2), "thorough": (3000, 12)}
+SIZES = {"quick": (300, 3, 1500), "thorough": (4000, 15, 12000)}
 
 
 def run(ctx):
